@@ -281,4 +281,152 @@ theorem info_limit_witness : ¬ info_full := by
 /-- … and 2045 bytes still pass -/
 example : parseInfo (serInfo [(1, List.replicate 2045 65), (4, [66])]) = [(1, List.replicate 2045 65), (4, [66])] := by decide +kernel
 
+/-! ## the string table -/
+
+theorem init_inv (fl : Nat) : (Strings.init fl).Inv := by
+  refine ⟨by simp [Strings.init], by simp [Strings.init, Strings.used], ?_⟩
+  intro s hs hp
+  simp only [Strings.init, List.mem_replicate] at hs
+  rw [hs.2] at hp; simp [Slot.free] at hp
+
+/-- the marks of the slot loop keep the invariant -/
+theorem inv_scan (t : Strings) (ty : Int) (h : t.Inv) : ({ t with slots := (scan ty t.slots).1 } : Strings).Inv := by
+  obtain ⟨h1, h2, h3⟩ := h
+  refine ⟨by simp [scan_length, h1], h2, ?_⟩
+  intro s hs hp
+  exact h3 s (scan_live_mem ty t.slots s hs hp) hp
+
+/-- `strings_store_inv`, one call: offsets stay inside the used part of the store and `used ≤ capacity`, whatever the
+    mode, the type, the text and the outcome of the call -/
+theorem store_inv (e : Env) (t : Strings) (ty : Int) (str : List Byte) (h : t.Inv) : (store e t ty str).2.Inv := by
+  unfold store
+  split; · exact h
+  split; · exact h
+  split; · exact h
+  simp only
+  split; · exact inv_scan t ty h
+  split; · exact inv_scan t ty h
+  split; · exact inv_scan t ty h
+  split; · exact inv_scan t ty h
+  split; · exact inv_scan t ty h
+  rename_i hk _ _ _
+  obtain ⟨h1, h2, h3⟩ := h
+  simp only [Strings.used] at h2 h3 ⊢
+  generalize htext : (if (ty = 3 && isWriteMode e.mode) = true then softwareText e.pkgName e.pkgVersion str else str) = text
+  refine ⟨by simp [scan_length, h1], ?_, ?_⟩
+  · simp only [Strings.used, List.length_append, List.length_cons, List.length_nil] at h2 ⊢
+    have := Nat.le_max_right 256 (2 * t.cap + (text.length + 1) + 1)
+    by_cases hc : t.storage.length + (text.length + 1) + 1 > t.cap
+    · rw [if_pos hc]; omega
+    · rw [if_neg hc]; omega
+  · intro s hs hp
+    simp only [Strings.used, List.length_append, List.length_cons, List.length_nil] at h2 ⊢
+    rcases List.mem_or_eq_of_mem_set hs with hs | hs
+    · have hm := scan_live_mem ty t.slots s hs hp
+      obtain ⟨a, b⟩ := h3 s hm hp
+      refine ⟨by omega, ?_⟩
+      rw [List.append_assoc, List.drop_append_of_le_length (by omega)]
+      rw [cstr_append_of_lt _ _ (by simp only [List.length_drop]; omega)]
+      omega
+    · subst hs
+      dsimp only
+      refine ⟨by omega, ?_⟩
+      rw [List.append_assoc, List.drop_left]
+      have := cstr_terminated_le text []
+      omega
+
+/-- `strings_store_inv`: for every sequence of calls (any modes, types, texts; successful or refused) on a freshly opened
+    handle, every live slot points at a text inside the used part of the store and `used ≤ capacity` -/
+theorem strings_store_inv (fl : Nat) (calls : List (Env × Int × List Byte)) :
+    (calls.foldl (fun t c => (store c.1 t c.2.1 c.2.2).2) (Strings.init fl)).Inv := by
+  suffices ∀ t : Strings, t.Inv → (calls.foldl (fun t c => (store c.1 t c.2.1 c.2.2).2) t).Inv from this _ (init_inv fl)
+  induction calls with
+  | nil => intro t h; exact h
+  | cons c cs ih => intro t h; exact ih _ (store_inv c.1 t c.2.1 c.2.2 h)
+
+def envW : Env := ⟨.write, false, ascii "libsndfile", ascii "1.2.2"⟩
+
+example : let t := (store envW (store envW (Strings.init 0x300) 1 (ascii "a")).2 1 (ascii "bc")).2
+    get t 1 = some (ascii "bc") ∧ t.used = 5 ∧ t.cap = 256 ∧ (t.slots.take 3).map (·.type) = [-1, 1, 0] := by decide +kernel
+
+/-- the software string: suffix added … -/
+example : (store envW (Strings.init 0x300) 3 (ascii "me")).2.storage = ascii "me (libsndfile-1.2.2)" ++ [0] := by decide +kernel
+
+/-- … through `char new_str [128]`: a software string is cut to 127 bytes (and loses the suffix) -/
+theorem software_truncated_witness :
+    get (store envW (Strings.init 0x300) 3 (List.replicate 120 65)).2 3 = some (List.replicate 120 65 ++ ascii " (libsn") := by decide +kernel
+
+/-- a refused call may still erase: the 33rd sf_set_string on a handle fails with SFE_STR_MAX_COUNT *after* the slot loop
+    has marked the existing entry of that type as replaced -/
+theorem refused_set_erases_witness :
+    let full := (List.range 32).foldl (fun t k => (store envW t 1 [65 + k]).2) (Strings.init 0x300)
+    get full 1 = some [96] ∧ (store envW full 1 [66]).1 = SFE_STR_MAX_COUNT ∧ get (store envW full 1 [66]).2 1 = none := by decide +kernel
+
+/-! ## calls that come too late or that the container cannot store -/
+
+/-- a refused psf_store_string leaves the text of every *other* type where it was -/
+theorem store_refused_get (e : Env) (t : Strings) (ty : Int) (str : List Byte) (ty' : Int) (hne : ty' ≠ ty) (hm : ty' ≠ -1) :
+    (store e t ty str).1 ≠ 0 → get (store e t ty str).2 ty' = get t ty' := by
+  have hscan : get ({ t with slots := (scan ty t.slots).1 } : Strings) ty' = get t ty' := by
+    simp only [get, scan_find_other ty ty' _ hne hm]
+  unfold store
+  split; · intro _; rfl
+  split; · intro _; rfl
+  split; · intro _; rfl
+  simp only
+  split; · intro _; exact hscan
+  split; · intro _; exact hscan
+  split; · intro _; exact hscan
+  split; · intro _; exact hscan
+  split; · intro _; exact hscan
+  intro h; simp at h
+
+def Op.isAudio : Op → Bool
+  | .writeAudio _ => true
+  | _ => false
+
+/-- the result code says "refused" (`sf_set_string`: non-zero; `sf_command`: SF_FALSE) -/
+def refused : Op → Nat → Bool
+  | .setString _ _, r => r ≠ 0
+  | .writeAudio _, _ => false
+  | _, r => r = 0
+
+def Op.stringType : Op → Int
+  | .setString ty _ => ty
+  | _ => 0
+
+/-- `late_or_unsupported_is_harmless` (model level): a metadata call never touches the audio bytes; when it is refused —
+    because audio has been written, because the container has no place for the item, or because its size fields are
+    inconsistent — bext, cart, cue points and instrument keep their values and every string of another type is still
+    returned.  (The refused call's *own* string type can be lost: `refused_set_erases_witness`.) -/
+theorem late_or_unsupported_is_harmless (pn pv : List Byte) (h : MetaState) (op : Op) (hop : op.isAudio = false) :
+    (step pn pv h op).2.audio = h.audio ∧ (step pn pv h op).2.haveWritten = h.haveWritten ∧
+    (refused op (step pn pv h op).1 = true →
+      (step pn pv h op).2.bext = h.bext ∧ (step pn pv h op).2.cart = h.cart ∧ (step pn pv h op).2.cues = h.cues ∧
+      (step pn pv h op).2.inst = h.inst ∧
+      ∀ ty' : Int, ty' ≠ op.stringType → ty' ≠ -1 → get (step pn pv h op).2.strings ty' = get h.strings ty') := by
+  cases op with
+  | writeAudio b => simp [Op.isAudio] at hop
+  | setString ty s =>
+    simp only [step]
+    split
+    · simp
+    · refine ⟨rfl, rfl, ?_⟩
+      intro hr
+      refine ⟨rfl, rfl, rfl, rfl, ?_⟩
+      intro ty' hne hm
+      simp only [Op.stringType] at hne
+      simp only [refused, decide_eq_true_eq] at hr
+      exact store_refused_get _ _ _ _ _ hne hm hr
+  | setBext line b d ds => simp only [step]; (repeat' split) <;> simp [refused, Op.stringType]
+  | setCart j c d ds => simp only [step]; (repeat' split) <;> simp [refused, Op.stringType]
+  | setCues cs => simp only [step]; (repeat' split) <;> simp [refused, Op.stringType]
+  | setInst i => simp only [step]; (repeat' split) <;> simp [refused, Op.stringType]
+
+/-- non-vacuity: bext on an AIFF handle is refused, bext after the audio is refused; a string after the audio is accepted -/
+example : (step [] [] (MetaState.open .aiff) (.setBext [] bextSample 6 614)).1 = 0 ∧
+    (step [] [] (step [] [] (MetaState.open .wav) (.writeAudio [1, 2])).2 (.setBext [] bextSample 6 614)).1 = 0 ∧
+    (step [] [] (step [] [] (MetaState.open .wav) (.writeAudio [1, 2])).2 (.setString 1 [65])).1 = 0 ∧
+    (step [] [] (MetaState.open .w64) (.setString 1 [65])).1 = SFE_STR_NO_SUPPORT := by decide +kernel
+
 end Sf.Meta
